@@ -183,6 +183,10 @@ def run(ctx, rep):
                                 for d in rd.at(dn, v):
                                     if d != "param" and d.id in hnodes:
                                         okp = True
+                            # folded form: the handler invocation is written inside the encode expression itself
+                            if dn.id in hnodes and any(
+                                    A.contains(bc, hc_) for bc in A.find_calls(dn.ast, "self._box") for _, hc_ in hcalls):
+                                okp = True
             rep.ob("R08.1", "_dispatch_request: the reply carries the handler's result", okp,
                    "the value boxed into MSG_REPLY is the reaching definition from the handler call" if okp else
                    "the MSG_REPLY payload is not derived from the handler's return value", ctx.loc(c))
